@@ -337,10 +337,17 @@ func VH_C15_gates() {
 
 // VH_C15_auth: AUTH with symbolic password bytes; only the exact password (modulo surrounding white space,
 // as documented) authenticates.
-//verif:cfg b_password_bytes=0..3 ignorego=1
+//verif:cfg b_password_bytes=0..3 b_password_set_by=configuration|CONFIG_SET ignorego=1
 func VH_C15_auth() {
 	s, _ := vhGateServer()
-	s.config._requirePass = "pw"
+	if vnondetBool() {
+		s.config._requirePass = "pw"
+	} else {
+		// the password is set at run time (CONFIG SET); the gate applies from the next command on
+		_, _, err := vhDo(s, "CONFIG", "SET", "requirepass", "pw")
+		vassert("C15.config_set_ok", err == nil)
+		vreach("config-set")
+	}
 	pass := vnondetString(3)
 	client := &Client{}
 	viaHeader := vnondetBool()
@@ -352,6 +359,10 @@ func VH_C15_auth() {
 	s.handleInputCommand(client, msg)
 	vobs("auth", client.authd)
 	vassert("C15.auth_iff_password_matches", client.authd == (strings.TrimSpace(pass) == "pw"))
+	// and only an authenticated connection is served afterwards
+	c2 := &Client{authd: client.authd}
+	s.handleInputCommand(c2, &Message{Args: []string{"GET", "fleet", "truck1"}, ConnType: RESP, OutputType: RESP})
+	vassert("C15.data_only_after_authentication", vhIsErrorReply(string(c2.out), false) == !client.authd)
 	if !client.authd {
 		vassert("C15.failed_auth_gets_error", vhIsErrorReply(string(client.out), false))
 	}
